@@ -226,7 +226,7 @@ func (h *harness) replay() error {
 		var rN []string
 		var errN error
 		if len(w.Schedule) > 0 {
-			rN, _, errN = e.gated(src, w.N, rp.Slicer, w.Schedule)
+			rN, _, errN = e.gated(src, w.N, rp.Slicer, w.Schedule, w.FreshSel+i)
 		} else {
 			rN, errN = e.query(src, w.N)
 		}
